@@ -1,7 +1,8 @@
 (** C03 — Requests always carry exactly the current interest set of their type.
     Statements only; proofs are [exact] of lemmas in Proofs/SysProofs.v. *)
 From Xds Require Import Model.Base Model.Fqdn Model.Proto Model.Decode Model.Pick Model.Route Model.Mw Model.Sys Proofs.SysProofs.
-From Xds Require Import Model.DecodeCheck Model.SysCheck Model.Queue Proofs.WireProofs Proofs.QueueProofs.
+From Xds Require Import Model.DecodeCheck Model.SysCheck Model.Queue Proofs.WireProofs Proofs.QueueProofs Proofs.QueueMonoProofs.
+From Coq Require Import Sorting.Sorted.
 Open Scope string_scope.
 
 (** Every request a subscription change emits is of that type, is sent on the live stream, and lists exactly
@@ -90,3 +91,19 @@ Theorem C03_async_example :
   (map (fun x => (fst x, snd (snd x))) (q_sent (qrun h)), q_queue (qrun h)) =
   ([(0%N, ["a"]); (1%N, ["c"; "b"; "a"]); (1%N, ["b"; "a"]); (1%N, ["c"; "b"; "a"])], []).
 Proof. exact async_example. Qed.
+
+(** ... and apart from that re-subscription the wire never goes backwards: while interest sets only grow (lookups that
+    miss, acknowledgements; no eviction), for EVERY interleaving of changes, sends, failing sends, reconnects, hand-overs
+    and pick-ups (any number of queued requests discarded while the sender waits for the client lock), the name lists
+    of the requests of a type sent on a stream - the first one left out on every stream but the first - form a chain
+    under inclusion.  This is the statement the wire monitor of the concurrent runs evaluates on the implementation. *)
+Theorem C03_monotone_wire_async : forall h, grow_only q_init h ->
+  forall t j, StronglySorted (@incl string) (after_resub j (sent_on t j (q_sent (qrun h)))).
+Proof. exact monotone_wire. Qed.
+Print Assumptions C03_monotone_wire_async.
+
+Theorem C03_monotone_wire_example :
+  let h := [QChange TCl ["a"]; QSend; QReconnect; QChange TCl ["b"; "a"]; QChange TCl ["c"; "b"; "a"]; QPickup 0; QSend; QSend] in
+  grow_only q_init h /\ sent_on TCl 1 (q_sent (qrun h)) = [["c"; "b"; "a"]; ["b"; "a"]; ["c"; "b"; "a"]] /\
+  after_resub 1 (sent_on TCl 1 (q_sent (qrun h))) = [["b"; "a"]; ["c"; "b"; "a"]].
+Proof. exact monotone_wire_example. Qed.
